@@ -401,7 +401,7 @@ pub fn run_once(m: Arc<dyn Model>, u: &Unit, fire_at: usize, primal: &Option<(is
         if c.done || c.deadlock || c.livelock || c.diverged.is_some() { break; }
         let (g, to) = ex.cv.wait_timeout(c, Duration::from_millis(200)).unwrap();
         c = g;
-        if to.timed_out() && start.elapsed() > Duration::from_secs(20) { hang = true; break; }
+        if to.timed_out() && start.elapsed() > Duration::from_secs(HANG_S.load(SeqCst)) { hang = true; break; }
     }
     let mut eo = ExecOut::default();
     eo.completed = c.done;
@@ -424,6 +424,10 @@ pub fn run_once(m: Arc<dyn Model>, u: &Unit, fire_at: usize, primal: &Option<(is
     eo
 }
 
+/// seconds after which a worker which has not reached its next scheduling point is reported as hanging; a hang is only believed
+/// when the same schedule hangs again under the long limit (a starved machine is not a hang)
+static HANG_S: AtomicU64 = AtomicU64::new(20);
+const HANG_LONG_S: u64 = 150;
 pub struct Finding { pub prop: &'static str, pub sig: String, pub what: String }
 
 fn pclass(m: &dyn Model, u: &Unit) -> String {
@@ -513,7 +517,8 @@ pub fn explore_unit(u: &Unit, exec_cap: u64, deadline: Instant) -> UStats {
     let mut cs: std::collections::HashSet<u64> = Default::default();
     let mut outcomes: std::collections::HashSet<(Option<isize>, usize, isize, isize, bool)> = Default::default();
     // default schedule first: number of polls K
-    let base = run_once(m.clone(), u, usize::MAX, &primal, vec![], 20_000);
+    let mut base = run_once(m.clone(), u, usize::MAX, &primal, vec![], 20_000);
+    if base.hang { HANG_S.store(HANG_LONG_S, SeqCst); base = run_once(m.clone(), u, usize::MAX, &primal, vec![], 20_000); HANG_S.store(20, SeqCst); }
     let max_steps = if base.completed { base.steps * 50 + 2000 } else { 20_000 };
     if !base.completed || base.out.fuel_out {
         // the default schedule itself does not terminate (or dead-locks): report it and do not explore the (equally
@@ -540,8 +545,17 @@ pub fn explore_unit(u: &Unit, exec_cap: u64, deadline: Instant) -> UStats {
             while let Some((prefix, pre_used)) = stack.pop() {
                 if Instant::now() > deadline || st.executions >= exec_cap || st.leaked >= 50 { st.capped = true; break 'bounds; }
                 let plen = prefix.len();
-                let e = run_once(m.clone(), u, fire_at, &primal, prefix.clone(), max_steps);
-                if let Some(d) = &e.diverged { st.machinery.push(format!("{} in unit {}", d, u.json())); st.capped = true; break 'bounds; }
+                HANG_S.store(20, SeqCst);
+                let mut e = run_once(m.clone(), u, fire_at, &primal, prefix.clone(), max_steps);
+                if e.hang {
+                    // not believed before the same schedule hangs again under a much longer limit
+                    st.leaked += 1;
+                    HANG_S.store(HANG_LONG_S, SeqCst);
+                    let sched: Vec<usize> = e.trace.iter().map(|c| c.idx).collect();
+                    e = run_once(m.clone(), u, fire_at, &primal, sched, max_steps);
+                    if !e.hang { HANG_S.store(20, SeqCst); }
+                }
+                if let Some(d) = &e.diverged { st.machinery.push(format!("{} in unit {}", d, u.json())); st.capped = true; HANG_S.store(20, SeqCst); break 'bounds; }
                 if !e.completed { st.leaked += 1; }
                 // count (and judge) only the executions whose number of pre-emptions is exactly `bound`
                 let mut pre = 0usize;
@@ -617,7 +631,8 @@ pub fn explore_unit_all(u: &Unit, exec_cap: u64, deadline: Instant, reverse: boo
     st.completed_bound = -1;
     let mut outcomes: std::collections::HashSet<(Option<isize>, usize, isize, isize, bool)> = Default::default();
     let mut cs: std::collections::HashSet<u64> = Default::default();
-    let base = run_once(m.clone(), u, usize::MAX, &primal, vec![], 20_000);
+    let mut base = run_once(m.clone(), u, usize::MAX, &primal, vec![], 20_000);
+    if base.hang { HANG_S.store(HANG_LONG_S, SeqCst); base = run_once(m.clone(), u, usize::MAX, &primal, vec![], 20_000); HANG_S.store(20, SeqCst); }
     let max_steps = if base.completed { base.steps * 50 + 2000 } else { 20_000 };
     if !base.completed || base.out.fuel_out {
         if !base.completed { st.leaked += 1; }
@@ -637,8 +652,16 @@ pub fn explore_unit_all(u: &Unit, exec_cap: u64, deadline: Instant, reverse: boo
         while let Some(prefix) = stack.pop() {
             if Instant::now() > deadline || st.executions >= exec_cap || st.leaked >= 50 { st.capped = true; break 'fires; }
             let plen = prefix.len();
-            let e = run_once(m.clone(), u, fire_at, &primal, prefix.iter().map(|x| *x as usize).collect(), max_steps);
-            if let Some(d) = &e.diverged { st.machinery.push(format!("{} in unit {}", d, u.json())); st.capped = true; break 'fires; }
+            HANG_S.store(20, SeqCst);
+            let mut e = run_once(m.clone(), u, fire_at, &primal, prefix.iter().map(|x| *x as usize).collect(), max_steps);
+            if e.hang {
+                st.leaked += 1;
+                HANG_S.store(HANG_LONG_S, SeqCst);
+                let sched: Vec<usize> = e.trace.iter().map(|c| c.idx).collect();
+                e = run_once(m.clone(), u, fire_at, &primal, sched, max_steps);
+                if !e.hang { HANG_S.store(20, SeqCst); }
+            }
+            if let Some(d) = &e.diverged { st.machinery.push(format!("{} in unit {}", d, u.json())); st.capped = true; HANG_S.store(20, SeqCst); break 'fires; }
             if !e.completed { st.leaked += 1; }
             st.executions += 1;
             st.steps += e.steps as u64;
